@@ -24,7 +24,8 @@ package websocket
 //@   after call Close: closed = true
 //@   ensures imp(have, closed)
 
-// Read decodes exactly the frame reader it obtained and counts what the decoder reports.
+// Read decodes exactly the frame reader it obtained, reads that frame to its end, and counts what
+// the decoder reports.
 //@ func (*Transport).Read
 //@   props C13
 //@   requires t.rxBytesCounter != nil
@@ -37,6 +38,12 @@ package websocket
 //@   after call decodeFrom: m = res1
 //@   assert call AddUint64: arg0 == t.rxBytesCounter && imp(n >= 0, arg1 == n)
 //@   ensures imp(result1 == nil, result0 == m)
+// Assumed protocol of websocket.Conn.Reader (coder/nhooyr): the next reader is handed out only
+// after the previous frame reader was read to EOF - Read therefore drains the reader it obtained.
+//@   ghostvar drained bool = false
+//@   assert call io.Copy: arg1 == r
+//@   after call io.Copy: drained = (res1 == nil)
+//@   ensures imp(result1 == nil, drained)
 
 // Context takeover: both directions use the sliding window as the dictionary of the next
 // message and trim it to the negotiated window size only AFTER the message was appended
